@@ -311,6 +311,8 @@ func toolsDecrypt(env *Env, id, home, work string, is3k3y bool) {
 	}
 }
 
+var targetsRound int // cycles through the target variants, then through the three tools
+
 func toolsTargets(env *Env, id, home, work string) {
 	// a tiny source and a directory with things in it
 	src := filepath.Join(work, "src")
@@ -326,9 +328,11 @@ func toolsTargets(env *Env, id, home, work string) {
 	}
 	_ = os.Symlink("keep.iso", filepath.Join(outDir, "link.iso"))
 	names := []string{"adir", "empty.iso", "keep.iso", "link.iso", "other.bin"}
-	variant := []string{"existing-file", "existing-empty", "existing-dir", "symlink-to-file", "stdout", "new", "new"}[env.Rnd.Intn(7)]
+	variants := []string{"existing-file", "existing-empty", "existing-dir", "symlink-to-file", "stdout", "new"}
+	variant := variants[targetsRound%len(variants)]
 	name := map[string]string{"existing-file": "keep.iso", "existing-empty": "empty.iso", "existing-dir": "adir", "symlink-to-file": "link.iso", "stdout": "-", "new": "fresh.iso"}[variant]
-	tool := env.Rnd.Intn(3)
+	tool := (targetsRound / len(variants)) % 3
+	targetsRound++
 	var args []string
 	target := filepath.Join(outDir, name)
 	if variant == "stdout" {
